@@ -694,5 +694,7 @@ func run(r *Rng, tier string, n int) {
 			}
 		}
 	}
+	// (4) EDNS0 option / SVCB parameter values at Go struct level (Model/OptVal.v)
+	runOptVals(r, tier)
 	Stat(st)
 }
